@@ -1,14 +1,20 @@
 #!/usr/bin/env python3
 """Run the repository's pinned suite (guard off) and compare with
 /root/.vp/BASELINE.json stable_pass.  exit 0 iff every stable test passes."""
-import json, subprocess, sys, tempfile, os, xml.etree.ElementTree as ET
+import json, signal, subprocess, sys, tempfile, os, xml.etree.ElementTree as ET
+
+
+def _sigint_default():
+    # background jobs inherit SIGINT=ignore; test_multithreading_with_interrupts needs the default
+    signal.signal(signal.SIGINT, signal.SIG_DFL)
+
 base = json.load(open("/root/.vp/BASELINE.json"))
 repo = sys.argv[1] if len(sys.argv) > 1 else "/repo"
 with tempfile.TemporaryDirectory() as td:
     xmlp = os.path.join(td, "j.xml")
     cmd = ["/venv/bin/python", "-m", "pytest", "-ra", "-q", "-p", "no:cacheprovider", "--timeout=900",
            "--continue-on-collection-errors", "--junitxml=" + xmlp]
-    r = subprocess.run(cmd, cwd=repo, capture_output=True, text=True)
+    r = subprocess.run(cmd, cwd=repo, capture_output=True, text=True, preexec_fn=_sigint_default)
     print(r.stdout.strip().splitlines()[-1])
     import shutil; shutil.rmtree(os.path.join(repo, ".hypothesis"), ignore_errors=True)
     passed = set()
@@ -26,7 +32,7 @@ for t in missing[:20]:
     path = "/".join(parts[:-1]) + ".py::" + parts[-1] + "::" + name
     ok = 0
     for _ in range(4):
-        r = subprocess.run(["/venv/bin/python", "-m", "pytest", "-q", "-p", "no:cacheprovider", path], cwd=repo, capture_output=True, text=True)
+        r = subprocess.run(["/venv/bin/python", "-m", "pytest", "-q", "-p", "no:cacheprovider", path], cwd=repo, capture_output=True, text=True, preexec_fn=_sigint_default)
         import shutil; shutil.rmtree(os.path.join(repo, ".hypothesis"), ignore_errors=True)
         ok += r.returncode == 0
     print("  MISSING", t, "-> passes %d/4 when re-run alone%s" % (ok, " (flaky, randomly seeded)" if ok else ""))
